@@ -619,7 +619,9 @@ def comparator_table(ck, rule):
             l, op, rr = r.left, r.ops[0], r.comparators[0]
 
             def is_val(e, who):
-                e = peel(e)[0]
+                e, casts_ = peel(e)
+                if any(c_[0] == "astype" for c_ in casts_):
+                    return False         # a value re-typed before the comparison (e.g. to the other operand's integer dtype) is not the value any more
                 return isinstance(e, ast.Call) and isinstance(e.func, ast.Attribute) and e.func.attr in ("get_val", "astype", "__call__") and dotted(e.func.value) == who and not e.args and not e.keywords
             left_ok = is_val(l, "self")
             right_ok = is_val(rr, xp) if fxp_branch else dotted(rr) == xp
